@@ -828,6 +828,44 @@ def run_init_base(acc, name_model, spec, shape, pattern, fills, extras=EXTRAS, o
             acc.outcome(f"init:{'fill' if label != '0' else 'padding'}:{worst}")
 
 
+def run_init_ages(acc, name_model, spec):
+    """Relation on the ages of visits at which a feature is MISSING: for an individual with three visits, the age of the visit at
+    which feature k has no value is moved; the initial velocity of feature k (`log_v0_mean[k]`, a function of the observed
+    (age, value) pairs of feature k only) must not move by a single bit.  (The other feature, observed at that visit, and the
+    time-related parameters legitimately change.)"""
+    shape = (3, 2)
+    for j in range(3):
+        for k in range(spec["dim"]):
+            base_case = {"part": "init_ages", "model": name_model, "visit": j, "feature": k}
+            _, df = cohort_dataset(spec, shape, 0)
+            rows = df.index[df["ID"] == df["ID"].iloc[0]]
+            df.loc[rows[j], f"Y{k}"] = NAN
+            outs = []
+            for shift in (0.0, 1.75, -0.4):
+                d = df.copy()
+                d.loc[rows[j], "TIME"] += shift
+                kind = "joint" if spec["kind"] == "joint" else "visit"
+                ds = Dataset(Data.from_dataframe(d, kind, drop_full_nan=False, warn_empty_column=False))
+                outs.append(initialised_parameters(spec, ds))
+                acc.evaluation()
+            acc.nontriv(repr(("init_ages", name_model, j, k)))
+            if any("__exc__" in o for o in outs):
+                if len({o.get("__exc__", (None, None))[1] for o in outs}) > 1:
+                    acc.violation("initialize|outcome depends on the age of a visit at which the feature is missing|" + spec["kind"],
+                                  str([o.get("__exc__") for o in outs]), dict(base_case))
+                acc.outcome("init_ages:raises")
+                continue
+            a = outs[0]["param:log_v0_mean"][k]
+            moved = [sh for sh, o in zip((1.75, -0.4), outs[1:]) if not same_tensor(a, o["param:log_v0_mean"][k])]
+            if moved:
+                acc.violation("initialize[log_v0_mean]|velocity of a feature depends on the age of a visit at which that feature is missing|" + spec["kind"],
+                              f"feature {k}, visit {j} of the first individual moved by {moved}: {float(a)!r} -> "
+                              f"{[float(o['param:log_v0_mean'][k]) for o in outs[1:]]}", dict(base_case))
+            other = 1 - k if spec["dim"] == 2 else None
+            acc.outcome("init_ages:own velocity unchanged" + (", the other feature's moved" if other is not None and not same_tensor(
+                outs[0]["param:log_v0_mean"][other], outs[1]["param:log_v0_mean"][other]) else ""))
+
+
 # ------------------------------------------------------------------------------------------------------------
 # parts "fit" and "perso"
 
@@ -1042,7 +1080,9 @@ def shards(tier, seed):
             for chunk in _chunks(patterns(shape, dim), 24):
                 out.append({"part": "init", "model": name, "shape": list(shape), "patterns": chunk,
                             "fills": fills if tier == "thorough" else ["0", "7.5", "nan", "inf"], "extras": [0, 1, 2] if tier == "thorough" else [0, 1]})
-    order = {"stats": 0, "init": 0, "slow": 1}
+    for name in ("logistic_d2_s1_diag", "linear_d2_s0_scalar", "joint_d2_s1_diag"):
+        out.append({"part": "init_ages", "model": name, "shape": [3, 2]})
+    order = {"stats": 0, "init": 0, "init_ages": 0, "slow": 1}
     out.sort(key=lambda s: (order[s["part"]], sum(s["shape"]) * MODEL_SPECS[s["model"]]["dim"]))
     return out
 
@@ -1058,6 +1098,8 @@ def run_shard(shard):
         acc.evaluation()
         for p in shard["patterns"]:
             run_stats_base(acc, name, model, spec, shape, p, shard["fills"], full=full)
+    elif shard["part"] == "init_ages":
+        run_init_ages(acc, name, spec)
     elif shard["part"] == "init":
         for p in shard["patterns"]:
             run_init_base(acc, name, spec, shape, p, shard["fills"], extras=tuple(shard.get("extras", EXTRAS)))
@@ -1073,6 +1115,9 @@ def replay(case):
     acc = Acc()
     name = case["model"]
     spec = MODEL_SPECS[name]
+    if case["part"] == "init_ages":
+        run_init_ages(acc, name, spec)
+        return [{"signature": v["signature"], "message": v["message"]} for v in acc.violations.values()]
     shape = tuple(case["shape"])
     only = (str(case["fill"]), case["extra"] if case["extra"] == "reload" else int(case["extra"]))
     if case["part"] == "stats":
